@@ -2,16 +2,34 @@
 
 package simrt
 
-import "unsafe"
+import (
+	"sync"
+	"unsafe"
+)
 
 // Pass-through runtime: native behaviour, no simulation.
 
-func Range(m interface{}, site int32) *Iter { return nativeRange(m) }
-func Enter(site int32) func()               { return nop }
-func Tick(site int32)                       {}
-func Yield(site int32)                      {}
-func W(p unsafe.Pointer, size uintptr, site int32) {}
-func R(p unsafe.Pointer, size uintptr, site int32) {}
+func Range(m interface{}, site int32) *Iter                        { return nativeRange(m) }
+func Enter(site int32) func()                                      { return nop }
+func Tick(site int32)                                              {}
+func Yield(site int32)                                             {}
+func W(p unsafe.Pointer, size uintptr, site int32)                 {}
+func R(p unsafe.Pointer, size uintptr, site int32)                 {}
 func RP(p unsafe.Pointer, size uintptr, site int32) unsafe.Pointer { return p }
-func WM(m interface{}, site int32)          {}
-func RM(m interface{}, site int32)          {}
+func WM(m interface{}, site int32)                                 {}
+func RM(m interface{}, site int32) interface{}                     { return m }
+
+type tryLocker interface {
+	Lock()
+	Unlock()
+}
+type tryRLocker interface {
+	RLock()
+	RUnlock()
+}
+
+func MuLock(mu tryLocker, site int32)           { mu.Lock() }
+func MuUnlock(mu tryLocker, site int32)         { mu.Unlock() }
+func MuRLock(mu tryRLocker, site int32)         { mu.RLock() }
+func MuRUnlock(mu tryRLocker, site int32)       { mu.RUnlock() }
+func OnceDo(o *sync.Once, f func(), site int32) { o.Do(f) }
